@@ -381,6 +381,38 @@ func ConstGroupAtoms() []Atom {
 			}
 		}
 	}
+	// specs with two names: the implicit repetition repeats BOTH expressions, each column keeps its own type
+	explicit2 := []spec{
+		{"%[1]s, %[1]sx = iota, iota * 2.5", "uint+ufloat"}, {"%[1]s, %[1]sx = uint8(iota), \"s\"", "tint+ustring"}, {"%[1]s, %[1]sx float64 = iota, 7", "tfloat+tfloat"},
+		{"%[1]s, %[1]sx = 2.5, iota", "ufloat+uint"}, {"%[1]s, %[1]sx = iota + 1, 1 << iota", "uint+uint"}, {"%[1]s, %[1]sx = MyInt(iota), float32(iota)", "tint+tfloat"},
+		{"%[1]s, %[1]sx = 'a', iota", "urune+uint"}, {"%[1]s, %[1]sx = iota, iota > 0", "uint+ubool"},
+	}
+	// (operators over typed constants and rune + int are decided - and fail - in the operator catalogue: not used here)
+	imp2 := spec{"%[1]s, %[1]sx", "implicit2"}
+	uses2 := []string{"v := %[1]sx; _ = v", "_ = %[1]sx", "v, w := %[1]s, %[1]sx; _, _ = v, w"}
+	add2 := func(specs []spec) {
+		var sb strings.Builder
+		strat := "constgroup2"
+		sb.WriteString("const (\n")
+		for i, sp := range specs {
+			sb.WriteString("\t" + fmt.Sprintf(sp.text, names[i]) + "\n")
+			strat += "/" + sp.class
+		}
+		sb.WriteString(")")
+		last := names[len(specs)-1]
+		for k, u := range uses2 {
+			out = append(out, Atom{Cat: "constgroup", Strat: fmt.Sprintf("%s/use%d", strat, k), Decl: sb.String(), Stmt: fmt.Sprintf(u, last)})
+		}
+	}
+	for _, a := range explicit2 {
+		add2([]spec{a})
+		add2([]spec{a, imp2})
+		add2([]spec{a, imp2, imp2})
+		for _, b := range explicit2 {
+			add2([]spec{a, b, imp2})
+			add2([]spec{a, imp2, b, imp2})
+		}
+	}
 	return dedup(out)
 }
 
